@@ -903,8 +903,16 @@ func checkEscape(r *Report, p *Prog, rule string, sel func(*ssa.Function) bool) 
 	n := 0
 	sers := serialisers(p)
 	checkedHelper := map[*ssa.Function]bool{}
+	// the selected functions and the module helpers they hand the tree to (whatever their signature)
+	var roots []*ssa.Function
 	for _, fn := range p.modFns {
-		if !p.InLibrary(fn) || !sel(fn) {
+		if p.InLibrary(fn) && sel(fn) {
+			roots = append(roots, fn)
+		}
+	}
+	scope := p.ReachableModuleOnly("vta", roots...)
+	for _, fn := range p.modFns {
+		if !p.InLibrary(fn) || !scope[fn] {
 			continue
 		}
 		a := NewAnalysis(p)
